@@ -985,6 +985,7 @@ def run(ctx):
     try:
         for b in bks:
             sites[b.name] = Site(ctx, b)
+        level_forms(ctx, sites[bks[0].name])
         return _run(ctx, thorough, bks, feats, feats_big, classes, sites)
     finally:
         for s in sites.values():
@@ -1163,6 +1164,87 @@ def _finish(ctx):
                       'TLC: Cleanup.tla exhaustively per backend feature class for the stated constants; distinct = distinct '
                       '(backend, contents, task) cleanup runs on real caches: executed TLC behaviours, systematic single-tile '
                       'cases and random contents, each validated by TLC or compared state by state')
+
+
+# ------------------------------------------------------------------------------------------------
+# level selection of tasks (seed and clean-up), all forms of the `levels` option
+# ------------------------------------------------------------------------------------------------
+def level_forms(ctx, site):
+    """spec/LevelSel.tla gives the levels a task works on for every form of the option; the tasks the real
+    SeedingConfiguration builds must select exactly those"""
+    import mapproxy.seed.config as SC
+    nl = len(RES)
+    forms = [{'kind': 'none'}]
+    for ls in ([0], [0, 1], [1, 10, 11], [12], [5, 40], [0, 12]):
+        forms.append({'kind': 'list', 'ls': ls})
+    ends = [None, 0, 1, 2, 11, 12, 30]
+    for a in ends:
+        for b in ends:
+            if a is None and b is None:
+                continue
+            if a is not None and b is not None and a > b:
+                continue
+            forms.append({'kind': 'range', 'from': -1 if a is None else a, 'to': -1 if b is None else b})
+    d = ctx.sub('levelsel')
+    body = ['---- MODULE MC_LevelSel ----', 'EXTENDS LevelSel']
+    recs = []
+    for f in forms:
+        if f['kind'] == 'none':
+            recs.append('[kind |-> "none"]')
+        elif f['kind'] == 'list':
+            recs.append('[kind |-> "list", ls |-> {%s}]' % ', '.join(str(v) for v in f['ls']))
+        else:
+            recs.append('[kind |-> "range", from |-> %d, to |-> %d]' % (f['from'], f['to']))
+    body.append('Forms == <<%s>>' % ', '.join(recs))
+    body.append('ASSUME PrintT(<<"levelsel", [i \\in 1 .. Len(Forms) |-> Levels(Forms[i], %d)]>>)' % nl)
+    body.append('VARIABLE x')
+    body.append('Spec == x = 0 /\\ [][UNCHANGED x]_x')
+    body.append('====')
+    mp = os.path.join(d, 'MC_LevelSel.tla')
+    with open(mp, 'w') as f:
+        f.write('\n'.join(body) + '\n')
+    cp = os.path.join(d, 'MC_LevelSel.cfg')
+    with open(cp, 'w') as f:
+        f.write('SPECIFICATION Spec\n')
+    shutil.copy(os.path.join(tlc.SPEC_DIR, 'LevelSel.tla'), d)
+    r = tlc.run(mp, cp, d, workers=1, coverage=False, timeout=300)
+    pr = tlc.find_prints(r.out, 'levelsel')
+    if not pr:
+        raise tlc.MachineryError('LevelSel: no table from TLC: %s' % r.out[-800:])
+    tab = pr[-1][1]
+    expected = [sorted(int(v) for v in (tab[i] if isinstance(tab, tuple) else tab[i + 1])) for i in range(len(forms))]
+    n = 0
+    for f, exp in zip(forms, expected):
+        if f['kind'] == 'none':
+            lv = None
+        elif f['kind'] == 'list':
+            lv = list(f['ls'])
+        else:
+            lv = {}
+            if f['from'] != -1:
+                lv['from'] = f['from']
+            if f['to'] != -1:
+                lv['to'] = f['to']
+        for section, key in (('cleanups', 'remove_all'), ('seeds', None)):
+            t = {'caches': ['c'], 'grids': ['lat']}
+            if lv is not None:
+                t['levels'] = lv
+            if key:
+                t[key] = True
+            conf = {section: {'k': t}}
+            try:
+                sc = SC.SeedingConfiguration(conf, mapproxy_conf=site.pc)
+                tasks = sc.cleanups(['k']) if section == 'cleanups' else sc.seeds(['k'])
+                got = sorted(tasks[0].levels) if tasks else []
+            except Exception as ex:
+                got = 'raised %r' % (ex,)
+            n += 1
+            ctx.count(('levelsel', section, json.dumps(f, sort_keys=True)))
+            if got != exp:
+                ctx.violation({'kind': 'level-selection', 'section': section, 'form': f['kind']},
+                              '%s task with levels %s selects levels %s, LevelSel.tla says %s' % (section, json.dumps(lv), got, exp),
+                              {'form': f, 'section': section})
+    ctx.log('level selection: %d (form, task kind) pairs compared with LevelSel.tla' % n)
 
 
 def replay(ctx, data):
